@@ -126,6 +126,32 @@ def run_fresh(chk: Check, tier: str, rnd: random.Random, work):
     return len(progs)
 
 
+def later_transactions(chk: Check) -> None:
+    """What a state-setting cheatcode sets holds for the rest of its own transaction only: a test that warps / rolls / sets the
+    fee, chain id, coinbase and prevrandao is followed by a test that reads the block - the values of setUp's state."""
+    from harness.artifacts import HEVM, Contract, Fn, cheat_call, panic, run_contract
+
+    sets = []
+    for sig, v in (("warp(uint256)", 1000), ("roll(uint256)", 2000), ("fee(uint256)", 3000), ("chainId(uint256)", 4000), ("coinbase(address)", 0xC0FFEE), ("difficulty(uint256)", 5000)):
+        sets += cheat_call(HEVM, sig, [[("PUSH", v)]])
+    reads = []
+    for k, (op, want) in enumerate((("TIMESTAMP", 1), ("NUMBER", 1), ("BASEFEE", 0), ("CHAINID", 31337), ("COINBASE", 0), ("DIFFICULTY", 0))):
+        reads += [op, ("PUSH", want), "EQ", ("PUSHL", f"ok{k}"), "JUMPI"] + panic(1) + [("LABEL", f"ok{k}")]
+    c = Contract("BlockLeakT", [Fn("setUp()", ["STOP"]), Fn("check_a_set()", sets + ["STOP"]), Fn("check_b_read()", reads + ["STOP"])])
+    for order in (["check_a_set()", "check_b_read()"], ["check_b_read()"]):
+        out = run_contract(c, funsigs=order)
+        if out.exception:
+            raise MachineryError(f"run_contract raised {out.exception}")
+        r = out.by_sig().get("check_b_read()")
+        chk.count("traces_validated_against_impl")
+        chk.nontrivial(("later-transactions", len(order)))
+        if r is None or r.exitcode != 0:
+            if len(order) == 1:
+                raise MachineryError(f"the block defaults assumed by the scenario are not halmos' defaults: {out.stdout[-400:]}")
+            chk.violation("later-transaction:block-values-leak", "check_a_set() calls vm.warp/roll/fee/chainId/coinbase/difficulty; the test run after it, check_b_read(), does not read the block "
+                          "values of the post-setUp state any more", {"halmos_output": (out.stdout + out.logs)[-1500:]})
+
+
 def run(chk: Check, tier: str):
     rnd = random.Random(6151 * chk.seed + 14)
     work = workdir("c14")
@@ -139,6 +165,7 @@ def run(chk: Check, tier: str):
         for i in range(nstate):
             prog, inputs = progs_cheats.fam_statecheat(rnd, which=i % len(progs_cheats.STATE_CHEATS), ninputs=4)
             items.append(Item(prog, inputs, key=prog.name))
+        later_transactions(chk)
         for br in (False, True):
             prog, inputs = progs_cheats.etch_probe(br)
             items.append(Item(prog, inputs, key=prog.name))
